@@ -315,11 +315,29 @@ func judge(r *vlib.Run, b *built, sc scenario, when string, got dbrig.ReadSet, w
 	w.Mismatches = dbrig.Head(ms, 6)
 	w.Visible = fmt.Sprintf("last block %d", claimed-1)
 
-	r.Violation("crash:"+sc.Phase+":partial-block:"+dbrig.Signature(ms),
+	r.Violation("crash:"+sc.Phase+":partial-block:"+families(ms),
 		fmt.Sprintf("%s, crash at write %d, %s: last block is %d but %d reads do not show what the chain up to it holds (block under test: %d), e.g. %s answered %q, the model says %q; storage after the crash: %s",
 			sc.name(), w.Budget, when, claimed-1, len(ms), b.under, ms[0].Query, ms[0].Got, ms[0].Want, w.Survivors), w)
 
 	return -1
+}
+
+// families: which families of reads are wrong (State and StateBytes are one
+// family): the kind of failure, independent of which batches happened to land.
+func families(ms []dbrig.Mismatch) string {
+	set := map[string]struct{}{}
+	for i := range ms {
+		set[strings.TrimSuffix(dbrig.Kind(ms[i].Query), "Bytes")] = struct{}{}
+	}
+
+	ks := make([]string, 0, len(set))
+	for k := range set {
+		ks = append(ks, k)
+	}
+
+	sort.Strings(ks)
+
+	return strings.Join(ks, ",")
 }
 
 type outcome struct {
